@@ -102,6 +102,18 @@ func (s *linStore) Set(conn *redis.Conn, key string, val string, opt redis.SetOp
 	return redis.NewOKMessage(), nil
 }
 
+func (s *linStore) Exists(conn *redis.Conn, keys []string) (*redis.Message, error) {
+	s.mu.Lock()
+	n := 0
+	for _, k := range keys {
+		if _, ok := s.m[k]; ok {
+			n++
+		}
+	}
+	s.mu.Unlock()
+	return redis.NewIntegerMessage(n), nil
+}
+
 func (s *linStore) Del(conn *redis.Conn, keys []string) (*redis.Message, error) {
 	s.yield()
 	s.mu.Lock()
@@ -324,9 +336,14 @@ func seqApply(m map[string]string, argv []string) (string, map[string]string) {
 			return bulk(old), n
 		}
 		return "$-1\r\n", n
-	case "INCR", "DECRBY":
+	case "INCR", "DECR", "INCRBY", "DECRBY":
 		d := int64(1)
-		if argv[0] == "DECRBY" {
+		switch argv[0] {
+		case "DECR":
+			d = -1
+		case "INCRBY":
+			d, _ = strconv.ParseInt(argv[2], 10, 64)
+		case "DECRBY":
 			x, _ := strconv.ParseInt(argv[2], 10, 64)
 			d = -x
 		}
@@ -360,6 +377,32 @@ func seqApply(m map[string]string, argv []string) (string, map[string]string) {
 			n[argv[i]] = argv[i+1]
 		}
 		return ":1\r\n", n
+	case "MSET":
+		n := cp()
+		for i := 1; i+1 < len(argv); i += 2 {
+			n[argv[i]] = argv[i+1]
+		}
+		return "+OK\r\n", n
+	case "MGET":
+		out := fmt.Sprintf("*%d\r\n", len(argv)-1)
+		for _, k := range argv[1:] {
+			if v, ok := m[k]; ok {
+				out += bulk(v)
+			} else {
+				out += "$-1\r\n"
+			}
+		}
+		return out, m
+	case "EXISTS":
+		c := 0
+		for _, k := range argv[1:] {
+			if _, ok := m[k]; ok {
+				c++
+			}
+		}
+		return fmt.Sprintf(":%d\r\n", c), m
+	case "STRLEN":
+		return fmt.Sprintf(":%d\r\n", len(m[argv[1]])), m
 	case "DEL":
 		n := cp()
 		c := 0
